@@ -456,6 +456,132 @@ def dup_in_cut(c, inner_rows):
     return c['limit'] is not None and not c['distinct'] and len(inner_rows) != len({repr(r) for r in inner_rows})
 
 
+# ---- SELECT * FROM (q) = q, with output names that mean something elsewhere in beanquery
+# The subquery's output names are whatever the inner query calls its outputs: names of columns of the Beancount tables
+# (some of which those tables treat specially, e.g. hide from their own wildcard), attribute / method names of the table
+# and cursor classes, function and aggregate names.  None of them may matter to the wildcard over a subquery.
+STAR_NAMES = ['meta', 'date', 'id', 'type', 'account', 'balance', 'position', 'entry', 'posting', 'name', 'filename', 'lineno',
+              'columns', 'table', 'tables', 'wildcard_columns', 'row', 'context', 'value', 'key', 'number', 'currency',
+              'count', 'sum', 'first', 'last', 'min', 'max', 'year', 'open', 'close', 'clear', 'flatten', 'at', 'on',
+              'self', 'dtype', 'datatype', 'description', 'update', 'column', 'entries', 'options', 'errors', 'postings',
+              'other_accounts', 'tags', 'links', 'cost', 'price', 'weight', 'flag', 'payee', 'narration', 'location']
+
+
+class _AliasPool:
+    """stands in for c02.gen_case's alias_fmt: target i gets the i-th name of a shuffled pool"""
+
+    def __init__(self, names):
+        self.names = names
+
+    def format(self, i):
+        return self.names[i]
+
+
+def gen_star_case(rng):
+    """An inner query (c01 / c02 generators) over a table whose column names, and whose output aliases, are drawn from
+    STAR_NAMES; bare column targets may stay unaliased (their output name is the column name)."""
+    ncols = rng.randint(2, 4)
+    special = rng.sample(STAR_NAMES[:12], 2) + rng.sample(STAR_NAMES[12:], 2)
+    rng.shuffle(special)
+    names = [special[i] if rng.random() < 0.4 else 'abcd'[i] for i in range(ncols)]
+    cols = [(n, rng.choice(exprgen.ALL_TYPES)) for n in names]
+    rows = [tuple(values.gen_value(rng, PY[t], 0.2) for _, t in cols) for _ in range(rng.choice([0, 1, 2, 3, 5]))]
+    pool = [n for n in STAR_NAMES[12:] if n not in names]
+    rng.shuffle(pool)
+    first = [n for n in STAR_NAMES[:12] if n not in names]
+    rng.shuffle(first)
+    # the names beanquery's own tables carry come first about as often as not
+    pool = sorted(first[:3] + pool[:5], key=lambda _: rng.random()) + first[3:] + pool[5:]
+    if rng.random() < 0.4:
+        c = c02.gen_case(rng, cols=cols, rows=rows, force_alias=True, alias_fmt=_AliasPool(pool))
+        sql, kind = c02.statement(c), 'agg'
+        out_names = [t['alias'] for t in c['targets']]
+    else:
+        c = c01.gen_case(rng, rng.randint(1, 2), cols=cols, rows=rows, allow_from=False)
+        out_names, parts, seen = [], [], set()
+        for i, (t, _) in enumerate(c['targets']):
+            if t in names and t not in seen and rng.random() < 0.6:
+                seen.add(t)
+                out_names.append(t)
+                parts.append(t)
+            else:
+                out_names.append(pool[i])
+                parts.append(f'{t} AS {pool[i]}')
+        if len(set(out_names)) != len(out_names):      # a bare column after an alias of the same name: alias it too
+            return gen_star_case(rng)
+        sql = 'SELECT ' + ', '.join(parts) + ' FROM #t' + (f' WHERE {c["where"][0]}' if c['where'] else '')
+        kind = 'plain'
+    return {'cols': cols, 'rows': rows, 'inner': sql, 'kind': kind, 'names': out_names}
+
+
+def star_sweep_cases():
+    """Deterministic: every name of STAR_NAMES once as an alias (first / middle / last output) and once as a table column
+    selected bare."""
+    out = []
+    for i, n in enumerate(STAR_NAMES):
+        other = STAR_NAMES[(i + 7) % len(STAR_NAMES)]
+        rows = [(1, 'p', True), (2, None, False), (None, 'q', None)]
+        cols = [('a', T_INT), ('b', T_STR), ('c', T_BOOL)]
+        inner = [f'SELECT a AS {n}, b, c AS {other} FROM #t', f'SELECT b, a + 1 AS {n}, c FROM #t WHERE a > 0',
+                 f'SELECT b, count(*) AS {other}, max(a) AS {n} FROM #t GROUP BY b'][i % 3]
+        out.append({'cols': cols, 'rows': rows, 'inner': inner, 'kind': 'sweep-alias', 'names': [n, other]})
+        cols2 = [(n, T_INT), ('b', T_STR), (other, T_BOOL)]
+        inner2 = [f'SELECT b, {n}, {other} FROM #t', f'SELECT {n}, b FROM #t ORDER BY {other}, b', f'SELECT {other}, b, {n} FROM #t LIMIT 2'][i % 3]
+        out.append({'cols': cols2, 'rows': rows, 'inner': inner2, 'kind': 'sweep-column', 'names': [n, other]})
+    return out
+
+
+def shrink_star(c):
+    """fewest rows that still disagree (the statement is kept)"""
+    rows = list(c['rows'])
+    i = 0
+    while i < len(rows):
+        d = dict(c)
+        d['rows'] = rows[:i] + rows[i + 1:]
+        if star_disagreement(d, run_star_impl(d)):
+            rows = d['rows']
+        else:
+            i += 1
+    d = dict(c)
+    d['rows'] = rows
+    return d
+
+
+def run_star_impl(c):
+    """-> {'q': the inner statement on its own, 'star': SELECT * FROM (q), 'star2': SELECT * FROM (SELECT * FROM (q)),
+           'named': SELECT <q's output names> FROM (q)}, each [0, rows, description] or ['exception', class]"""
+    def one(sql):
+        t = impl.make_table('t', [(n, PY[ty]) for n, ty in c['cols']], c['rows'])
+        conn = impl.connection({'t': t})
+        try:
+            cur = conn.execute(sql)
+            rows = values.canon_rows(cur.fetchall())
+            return [0, rows, [[d.name, d.datatype.__name__] for d in cur.description]]
+        except Exception as e:  # noqa: BLE001
+            return ['exception', impl.exc_class(e)]
+    out = {'q': one(c['inner'])}
+    out['star'] = one(f'SELECT * FROM ({c["inner"]})')
+    out['star2'] = one(f'SELECT * FROM (SELECT * FROM ({c["inner"]}))')
+    if out['q'][0] == 0:
+        out['named'] = one('SELECT ' + ', '.join(n for n, _ in out['q'][2]) + f' FROM ({c["inner"]})')
+    return out
+
+
+def star_disagreement(c, io):
+    """None, or what differs from the inner statement run on its own."""
+    for form, what in (('star', 'SELECT * FROM (q)'), ('star2', 'SELECT * FROM (SELECT * FROM (q))'),
+                       ('named', 'SELECT <the output names of q> FROM (q)')):
+        if form == 'named':
+            if io['q'][0] != 0:
+                continue
+            # only when every output name of q is an identifier (expression-named outputs cannot be spelled as a column)
+            if not all(n.isidentifier() for n, _ in io['q'][2]):
+                continue
+        if io[form] != io['q']:
+            return f'{what} gives {io[form]} but q = {c["inner"]} on its own gives {io["q"]}'
+    return None
+
+
 def generate():
     """translator tie: regenerate coq/Gen/SrcSubquery.v from the source of the imported beanquery.query_compile (py2mini +
     the rules and the structural reading of the column factory in src_subquery.py)"""
@@ -477,6 +603,8 @@ def run(tier, rng):
     impl_out = core.pmap(run_impl, cases)
     in_impl = core.pmap(run_in_impl, incases)
     shaped_impl = core.pmap(run_in_shaped_impl, shaped)
+    starcases = star_sweep_cases() + [gen_star_case(rng) for _ in range(250 if tier == 'quick' else 5000)]
+    star_impl = core.pmap(run_star_impl, starcases)
     models = core.coq_eval('c08', IMPORTS, [model_expr(c) for c in cases] + [c['coq'] for c in incases]
                            + [c['coq'] for c in shaped], shard=120)
     shaped_models = models[len(cases) + len(incases):]
@@ -552,6 +680,29 @@ def run(tier, rng):
                 violations.append(core.Violation(
                     'in-subquery-shaped', f'{c["sql"]} with #t={c["rows"]} #u={c["urows"]}: {bad}',
                     {'kind': 'in-shaped', 'case': c, 'impl': io, 'model': m}, signature=sig))
+    sthist = {'kind': {}, 'output_name': {}, 'table_column_with_special_name': 0, 'inner_statement_raised': 0,
+              'checked_by_name': 0, 'nonempty_result': 0}
+    nstar_bad = 0
+    for c, io in zip(starcases, star_impl):
+        sthist['kind'][c['kind']] = sthist['kind'].get(c['kind'], 0) + 1
+        sthist['table_column_with_special_name'] += any(n in STAR_NAMES for n, _ in c['cols'])
+        if io['q'][0] != 0:
+            sthist['inner_statement_raised'] += 1
+        else:
+            sthist['nonempty_result'] += bool(io['q'][1])
+            sthist['checked_by_name'] += all(n.isidentifier() for n, _ in io['q'][2])
+            for n, _ in io['q'][2]:
+                if n in STAR_NAMES:
+                    sthist['output_name'][n] = sthist['output_name'].get(n, 0) + 1
+        bad = star_disagreement(c, io)
+        if bad:
+            nstar_bad += 1
+            if nstar_bad <= 2:
+                small = shrink_star(c)
+                sig = 'star-names:' + small['inner'] + ' cols=' + repr(small['cols']) + ' rows=' + repr(small['rows'])
+                violations.append(core.Violation(
+                    'star-special-names', f'over #t {small["cols"]} {small["rows"]}: {star_disagreement(small, run_star_impl(small))}',
+                    {'kind': 'star-names', 'case': small, 'impl': run_star_impl(small)}, signature=sig))
     for fn, kind in ((same_type_columns, 'subquery-column-identity'), (nested_in_three_tables, 'nested-in'), (inner_order_kept, 'inner-order'), (look_alike_in_subqueries, 'look-alike-in'),
                      (unique_name_beside_duplicates, 'unique-name-beside-duplicates')):
         nchk, cbad = fn()
@@ -576,7 +727,9 @@ def run(tier, rng):
             violations.append(core.Violation('star-duplicate-names', f'SELECT * FROM ({inner}) raised {e!r}',
                                              {'kind': 'star-dup', 'inner': inner}, signature='star-duplicate-names:' + inner))
     cov = {
-        'evaluations': len(cases) + len(incases) + len(shaped) + 3 + len(unique_name_beside_duplicates_checks()),
+        'evaluations': len(cases) + len(incases) + len(shaped) + len(starcases) + 3 + len(unique_name_beside_duplicates_checks()),
+        'star_special_name_cases': len(starcases), 'star_special_name_histograms': sthist,
+        'star_special_name_samples': [c['inner'] for c in starcases[len(star_sweep_cases()):len(star_sweep_cases()) + 4]],
         'unique_name_beside_duplicates_checks': len(unique_name_beside_duplicates_checks()), 'distinct_nontrivial': nontrivial,
         'in_shaped_subqueries': len(shaped), 'in_shaped_histograms': shist,
         'in_shaped_samples': [c['sql'] for c in shaped[:4]],
@@ -586,7 +739,11 @@ def run(tier, rng):
                 'different table with NULLs and empty inner results vs model; x [NOT] IN (shaped subquery: WHERE, ORDER BY visible / hidden column / '
                 'hidden expression keys, DISTINCT, LIMIT, GROUP BY with hidden keys, aggregates, read through a FROM-subquery) over few '
                 'distinct inner values (duplicates on both sides of the LIMIT cut), in targets (IN and NOT IN side by side) and WHERE, vs model '
-                'and vs plain Python membership in the inner statement run on its own; non-trivial = nested case with source rows and a '
+                'and vs plain Python membership in the inner statement run on its own; SELECT * FROM (q), SELECT * FROM (SELECT * FROM (q)) '
+                'and SELECT <q\'s output names> FROM (q) vs q run on its own (rows, names and datatypes of the description) for plain and '
+                'aggregate q whose table columns and output aliases carry names that are special somewhere in beanquery (columns of the '
+                'Beancount tables, attributes of the table classes, function names: STAR_NAMES; each name swept once as alias and once as '
+                'a bare table column); non-trivial = nested case with source rows and a '
                 'non-empty result',
         'samples': [nested_sql(c) for c in cases[:3]] + [c['sql'] for c in incases[:2]],
         'traces_validated_against_impl': len(cases) + len(incases) + len(shaped), 'histograms': hist,
@@ -602,6 +759,11 @@ def replay(rec):
         io = run_in_shaped_impl(c)
         m = core.coq_eval('c08r', IMPORTS, [c['coq']])[0]
         return io['nested'] == io['member'] and io['nested'] == m
+    if rec.get('kind') == 'star-names':
+        c = dict(rec['case'])
+        c['cols'] = [tuple(x) for x in c['cols']]
+        c['rows'] = [tuple(c01._unjson(v, t) for v, (_, t) in zip(r, c['cols'])) for r in c['rows']]
+        return star_disagreement(c, run_star_impl(c)) is None
     if rec.get('kind') == 'unique-name-beside-duplicates':
         for sql, want, wdesc in unique_name_beside_duplicates_checks():
             if sql == rec['sql']:
